@@ -64,6 +64,22 @@ TB_CODEC = "insomniacslk/dhcp: FromBytes/ToBytes and the reply constructors are 
 TB_HOOK = "server capture hook (build tag verif): the real HandleMsg4/6 runs; the reply is captured instead of written to a socket"
 
 PROPS = {
+    "C08": dict(
+        engines=[("prefix", 2500, 40000)],
+        theorems=["C08_holds"],
+        modules=["CoreDhcp.Props.C08"],
+        facts=["F1", "F6"],
+        trusted_base=[TB_BITSET, TB_CLOCK, "insomniacslk/dhcp option parsing (IA_PD / IAPrefix): the model starts from the hints as the library delivers them"],
+        assumptions=["each message is one atomic step (handler mutex held for the whole call by defer: fact F1)", "the clock does not run backwards between messages"],
+    ),
+    "C09": dict(
+        engines=[("prefix", 2500, 40000)],
+        theorems=["C09_holds", "C09_frame"],
+        modules=["CoreDhcp.Props.C09"],
+        facts=["F1"],
+        trusted_base=[TB_BITSET, TB_CLOCK, "insomniacslk/dhcp option parsing (IA_PD / IAPrefix)"],
+        assumptions=["'no prefix hint at all' = no IAPrefix option or only IAPrefix options of prefix-length 0; a length-only hint (::/n, n>0) is a hint", "leases are never expired or freed by the plugin (as in the code)"],
+    ),
     "C11": dict(
         engines=[("dispatch4", 6000, 100000)],
         theorems=["C11_holds", "C11_never_answers_non_requests"],
